@@ -416,6 +416,10 @@ class _Walker:
         self.e._is_local(self.f, '')  # populate caches
         env = self.block(self.f.node.body, env)
         self.s.ret = self.ret if self.ret is not None else EMPTY
+        if any((dotted_name(d_.func if isinstance(d_, ast.Call) else d_) or '').split('.')[-1] in ('lru_cache', 'cache', 'memoize', 'memoized')
+               for d_ in self.f.node.decorator_list):
+            # a memoising decorator hands the same object to every caller
+            self.s.ret = join(self.s.ret, frozenset([('g', 'module-state')])) if not isinstance(self.s.ret, tuple) else self.s.ret
         for ev in self.s.events:
             for r in ev.roots:
                 if r[0] == 'p':
@@ -632,6 +636,12 @@ class _Walker:
         if isinstance(n, ast.Name):
             if n.id in env:
                 return env[n.id]
+            # a module-level container / array: state shared by all calls
+            if not self.e._is_local(self.f, n.id):
+                v = self.e.m.modules[self.f.module].assigns.get(n.id)
+                if isinstance(v, (ast.Dict, ast.List, ast.Set, ast.ListComp, ast.DictComp)) or (
+                        isinstance(v, ast.Call) and (dotted_name(v.func) or '').split('.')[0] in ('numpy', 'dict', 'list', 'set', 'collections')):
+                    return frozenset([('g', 'module-state')])
             return EMPTY
         if isinstance(n, ast.Constant):
             return EMPTY
